@@ -1,7 +1,17 @@
 
+val negb : bool -> bool
+
 type nat =
 | O
 | S of nat
+
+type ('a, 'b) sum =
+| Inl of 'a
+| Inr of 'b
+
+val fst : ('a1 * 'a2) -> 'a1
+
+val snd : ('a1 * 'a2) -> 'a2
 
 val length : 'a1 list -> nat
 
@@ -19,9 +29,21 @@ module Nat :
   val leb : nat -> nat -> bool
 
   val ltb : nat -> nat -> bool
+
+  val max : nat -> nat -> nat
+
+  val even : nat -> bool
+
+  val odd : nat -> bool
+
+  val div2 : nat -> nat
  end
 
+val hd : 'a1 -> 'a1 list -> 'a1
+
 val tl : 'a1 list -> 'a1 list
+
+val nth : nat -> 'a1 list -> 'a1 -> 'a1
 
 val last : 'a1 list -> 'a1 -> 'a1
 
@@ -29,7 +51,19 @@ val removelast : 'a1 list -> 'a1 list
 
 val rev : 'a1 list -> 'a1 list
 
+val concat : 'a1 list list -> 'a1 list
+
+val map : ('a1 -> 'a2) -> 'a1 list -> 'a2 list
+
 val fold_left : ('a1 -> 'a2 -> 'a1) -> 'a2 list -> 'a1 -> 'a1
+
+val forallb : ('a1 -> bool) -> 'a1 list -> bool
+
+val firstn : nat -> 'a1 list -> 'a1 list
+
+val skipn : nat -> 'a1 list -> 'a1 list
+
+val repeat : 'a1 -> nat -> 'a1 list
 
 type positive =
 | XI of positive
@@ -137,6 +171,8 @@ type bytes = byte list
 
 val bytes_eqb : bytes -> bytes -> bool
 
+val mem_bytes : bytes -> bytes list -> bool
+
 val b_slash : byte
 
 val b_dot : byte
@@ -241,3 +277,101 @@ val u8_step : u8_state -> byte -> u8_state option
 val utf8_go : u8_state -> bytes -> bool
 
 val utf8_valid : bytes -> bool
+
+type depfile_err =
+| ErrNoColon
+| ErrInputsHaveInputs
+
+type dresult =
+| DOk of bytes list * bytes list
+| DErr of depfile_err
+| DOutOfFuel
+
+val in_range0 : byte -> byte -> byte -> bool
+
+val mem_byte : byte -> bytes -> bool
+
+val plain_punct : bytes
+
+val is_plain : byte -> bool
+
+val is_colon_blank : byte -> bool
+
+val at0 : bytes -> nat -> byte
+
+val count_bs : bytes -> nat
+
+val plain_run : bytes -> nat
+
+val bsN : nat -> bytes
+
+type sres =
+| SCont of bytes * nat * nat
+| SBrk of bytes * nat * nat * bool
+
+val step : bytes -> sres
+
+val tok : nat -> bytes -> bytes -> ((bytes * bytes) * bool) option
+
+type pstate = { p_outs : bytes list; p_ins : bytes list;
+                p_have_target : bool; p_parsing_targets : bool;
+                p_poisoned : bool; p_is_empty : bool }
+
+val p_init : pstate
+
+val strip_colon : bytes -> bytes * bool
+
+val is_nil : 'a1 list -> bool
+
+val absorb : pstate -> bytes -> bool -> (depfile_err, pstate) sum
+
+val finish : pstate -> dresult
+
+val run : nat -> bytes -> pstate -> dresult
+
+val parse_depfile : bytes -> dresult
+
+val tok_idx :
+  nat -> bytes -> bytes -> nat -> nat ->
+  ((((bytes * bytes) * bool) * nat) * nat) option
+
+val run_idx : nat -> bytes -> pstate -> nat -> nat -> dresult * nat
+
+val parse_depfile_idx : bytes -> dresult * nat
+
+val run_then_space : bytes -> bool
+
+val enc_byte : bool -> byte -> bytes -> bytes
+
+val enc_gen : bool -> bytes -> bytes
+
+val allowed : byte -> bool
+
+val bad_pair : bool -> byte -> byte -> bool
+
+val ok_adj : bool -> bytes -> bool
+
+val wf_gen : bool -> bytes -> bool
+
+type layout =
+| OneLine
+| ContPerName
+| Crlf of layout
+| TrailBlank of layout
+
+val lay_cont : layout -> bool
+
+val lay_crlf : layout -> bool
+
+val lay_trail : layout -> nat
+
+val eol : layout -> bytes
+
+val dep_sep : layout -> bytes
+
+val join_sp : bytes list -> bytes
+
+val render_gen : bool -> layout -> bytes list -> bytes list -> bytes
+
+val render_rules_gen :
+  bool -> layout -> (bytes list * bytes list) list -> bytes
